@@ -218,7 +218,9 @@ def keep (t : α) : List α := if t > zero ∧ t < one then [t] else []
 /-- `b * b - S::FOUR * a * c` -/
 def disc (a b c : α) : α := b * b - four * a * c
 
-/-- the two-root branch: both roots, swapped into increasing order, each kept if in range -/
+/-- the two-root branch: both roots, swapped into increasing order, each kept if in range.
+(The code as it is: `(-b ∓ sqrt d) / (2a)`; correct over a field, but in floating point the
+subtraction cancels when `|4ac| ≪ b²` — finding `C11-cubic-extremum-cancellation`.) -/
 def twoRoots (a b s : α) : List α :=
   if (-b - s) / (two * a) > (-b + s) / (two * a)
   then keep ((-b + s) / (two * a)) ++ keep ((-b - s) / (two * a))
@@ -319,6 +321,9 @@ def clampY (s : Cubic α) : Cubic α :=
    ⟨s.c2.x, clampTo s.c2.y (Scalar.min s.a.y s.b.y) (Scalar.max s.a.y s.b.y)⟩,
    s.b⟩
 
+/-- `for_each_monotonic` (the code as it is: both control points are clamped into the range of the
+piece's endpoints, which changes a monotone cubic whose control points lie outside that range —
+finding `C11-cubic-monotonic-clamp`) -/
 def monotonicPieces (c : Cubic α) : List (Cubic α) :=
   c.monotonicRanges.map (fun r => clampXY (c.splitRange r.1 r.2))
 def xMonotonicPieces (c : Cubic α) : List (Cubic α) :=
